@@ -45,11 +45,23 @@ def encoder_table(ctx, prog):
     f = fn1(prog, 'asl::XdlEncoder::new_string', '(const char *)')
     ctx.analysed(f)
     import emit
+    emitted = None
     try:
-        emitted, _ = emit.emit_table(prog, f, '_out')
-    except emit.Unresolved as u:
-        raise AnalysisBroken('new_string: %s' % u)
-    ctx.evaluations += 255
+        emitted, framing, issues = emit.interp_table(prog, f, '_out')
+        ctx.evaluations += 255 + 14 * 14 + 512
+        ctx.check(framing == ([34], [34]), 'C05.escape', f['pq'], 'new_string:text between two double quotes', fwhere(f), 'every string is written as "..."',
+                  'new_string frames the text with %r and %r instead of a pair of double quotes' % (bytes(framing[0]), bytes(framing[1])))
+        ctx.check(not issues, 'C05.escape', f['pq'], 'new_string:what is written for a byte does not depend on its neighbours', fwhere(f), 'strings of 2 and 3 bytes over the special bytes are escaped byte by byte',
+                  'new_string writes %r for the text %r, byte by byte it would be %r: whether a character is escaped depends on the rest of the string' % (
+                      (bytes(issues[0][1] or []), bytes(issues[0][0]), bytes(issues[0][2])) if issues else (b'', b'', b'')))
+    except emit.Unresolved:
+        emitted = None
+    if emitted is None:
+        try:
+            emitted, _ = emit.emit_table(prog, f, '_out')
+        except emit.Unresolved as u:
+            raise AnalysisBroken('new_string: %s' % u)
+        ctx.evaluations += 255
     fmts = [bytes(w['b']).decode('latin-1') for e in fn_exprs(f) if e.get('k') == 'call' and e.get('fn') in ('snprintf', 'sprintf') for w in walk_expr(e) if w.get('k') == 'str']
     fmt = fmts[0] if fmts else None
     out = dict((b, list(v)) for b, v in emitted.items())
